@@ -236,9 +236,6 @@ theorem dropWhile_eq_self_of_head {p : Entry → Bool} {A : List Entry}
   | nil => rfl
   | cons a A' => simp [List.dropWhile_cons, h a A' rfl]
 
-/-- "strictly before `k`" in iteration order. -/
-def before (rev : Bool) (k : Bytes) (e : Entry) : Bool := if rev then blt k e.1 else blt e.1 k
-
 /-- `Seek(k)` positions on the first entry, in iteration order, that is not strictly before `k`:
 forward the least key ≥ `k`, reverse the greatest key ≤ `k`. -/
 theorem Iter.seek_rest {it : Iter} (h : it.WF) (k : Bytes) :
